@@ -128,6 +128,27 @@ ADDED = {
 }
 for k,v in ADDED.items():
     CLAIMS[k]["text"] = CLAIMS[k]["text"] + v
+ADDED2 = {
+ "C01": " Round three: interface calls outside the recover barrier resolve to every type made live anywhere (values escape the barrier); the lexer flushes its pending atom before queueing the next token; the parser's push iterator calls the consumer's yield only through a guard that remembers a false answer.",
+ "C02": " The generator's constructors and Reset establish what the abstract interpreter assumes of them (ES-CTOR).",
+ "C03": " The generator's scope count equals the open scopes at every sub-form (ES-S) and its constructors establish what the interpreter assumes (ES-CTOR).",
+ "C04": " The parser coroutine is stopped before the next parse's state is installed; ES-CTOR.",
+ "C05": " An error tested inside a loop is not carried round the loop to be overwritten by the next iteration.",
+ "C06": " The look-back ring that decides sign versus operator is read at (cursor - k) mod N including the wrapped case; no interpreter symbol is stored in a package-level operator record.",
+ "C07": " The float quotient of two integers is reached only after the integer modulo ran (a zero divisor has raised its error); no identity shortcut in the comparison code.",
+ "C09": " The tail jump makes the arity test an ordinary call makes; a let binding or parameter named like the function ends self-call recognition; a function is registered before its body is compiled; ES-CTOR.",
+ "C11": " The msgpack encoder is called only with JsonToGo's result.",
+ "C12": " The raw-printing (backtick) flag is set by the reader only and no string value is copied wholesale.",
+ "C13": " The final flush feeds a newline; the pending atom is flushed before the next token is queued.",
+ "C14": " The constructor writes only empty initial values of map, order list and count.",
+ "C15": " The interning rules of C19 hold (expansions intern into the tables they share with the caller).",
+ "C16": " ES-CTOR: sub-generators share knownFunctions and Reset keeps it.",
+ "C17": " A non-symbol key is an error for an instance of a declared struct; CloneFrom copies every field the type check consults; one recorded finding (element writes into slice-typed fields).",
+ "C18": " The package-aware hash walker never hands the rest of a path to the package-less wrapper.",
+ "C20": " Comparators that order map-derived data compare the keys themselves.",
+}
+for k,v in ADDED2.items():
+    CLAIMS[k]["text"] = CLAIMS[k]["text"] + v
 NA_DEFAULT="rules not built yet (build in progress; see DESIGN.md §7)"
 NA = {}
 
